@@ -80,7 +80,12 @@ NONLIN = [
 def gen_exo_text(rng, T, form=None, lo=-50.0, hi=50.0):
     """Text of one exogenous definition that evaluates to a list/tuple/float of length >= T+1.
     Returns (text, values list of length T+1, form)."""
-    form = form or rng.choice(['list', 'list', 'tuple', 'str', 'str2', 'scalar'])
+    form = form or rng.choice(['list', 'list', 'tuple', 'str', 'str2', 'scalar', 'intlist'])
+    if form == 'intlist':
+        # integers are legal list elements (only a bare *scalar* has to be a float to be broadcast)
+        n2 = T + 1 + rng.choice([0, 2])
+        vals = [rng.randint(-20, 20) for _ in range(n2)]
+        return '[' + ', '.join(repr(v) for v in vals) + ']', vals[0:T + 1], form
     n = T + 1 + rng.choice([0, 0, 1, 5])
     if form == 'scalar':
         v = fl(rng, lo, hi, rng.choice([None, 1]))
@@ -206,6 +211,12 @@ def gen_block(rng, profile='contractive', T=None, n=None, rich=True, allow_user_
         row_sums[v] = used
     for p in par_names:
         eqs.append([p, repr(par_vals[p])])
+    if rich and rng.random() < 0.15:
+        # an integer-valued constant that nothing refers to (k=0 value is an int), and one something refers to
+        eqs.append(['n0', repr(rng.randint(1, 9))])
+        if rng.random() < 0.5 and names:
+            lag_names_n = 'LAG_n0'
+            lags.append([lag_names_n, 'n0', 'k'])
 
     exo = []
     exo_vals = {}
